@@ -2,6 +2,7 @@ package frugal
 
 import (
 	"bytes"
+	"strconv"
 	"time"
 
 	"github.com/apache/thrift/lib/go/thrift"
@@ -235,5 +236,37 @@ func VerifC01_SequentialReuse() {
 	pipe.feed(verifResponseFrame(verifOpID(cb), []byte{2}))
 	rb := <-db
 	verifAssert(rb.err == nil && rb.opid == verifOpID(cb) && len(rb.data) == 1 && rb.data[0] == 2, "request B completes only with its own frame")
+	verifReach("end")
+}
+
+func init() {
+	verifHarnesses["VerifC01_OpIDOverflow"] = VerifC01_OpIDOverflow
+}
+
+// An op id on the wire is a decimal string: one that does not fit in 64 bits (here
+// 2^64 + N and 10 * 2^64 + N for a live op id N, and any 20..21-digit string whose
+// last digits are symbolic) is nobody's op id and must not be delivered to N.
+func VerifC01_OpIDOverflow() {
+	reg := newFRegistry().(*fRegistryImpl)
+	c := NewFContext("c")
+	n, _ := getOpID(c)
+	verifAssume(n < 300)
+	ch := make(chan []byte, 1)
+	verifAssert(reg.Register(c, ch) == nil, "register")
+	var op string
+	switch verifParam() {
+	case 0: // 2^64 + n  (2^64 = 18446744073709551616)
+		op = "18446744073709551" + strconv.Itoa(616+int(n))
+	case 1: // 10 * 2^64 + n
+		op = "184467440737095516" + strconv.Itoa(160+int(n))
+	case 2: // a 20-digit number above 2^64 whose last two digits are arbitrary
+		d1, d2 := verifNondetU8(), verifNondetU8()
+		verifAssume(d1 >= '0' && d1 <= '9' && d2 >= '0' && d2 <= '9')
+		op = "184467440737095517" + string([]byte{d1, d2})
+	}
+	err := reg.Execute(verifResponseFrame(op, []byte{7})[4:])
+	_ = err
+	verifAssert(len(ch) == 0, "a frame whose op id does not fit in 64 bits is not delivered to the request whose id it wraps to")
+	reg.Unregister(c)
 	verifReach("end")
 }
